@@ -64,6 +64,48 @@ theorem c19_chain_walk_diverges (g : Guards) (hg : g.chainVisited = false) (fuel
 
 example : Guards.original.chainVisited = false := rfl
 
+/-- **The guard has to be the whole chain.** Remembering only the certificate the walk came from ends every cycle
+of two, but three generations of one certificate (likewise three authorities certifying each other in a circle) send
+it round for ever: `a → b → c → a → …`, for every amount of fuel, from the start and from every point of the circle. -/
+theorem c19_predecessor_guard_insufficient (fuel : Nat) :
+    let a := Witness.selfSigned 10 4 "me"
+    let b := Witness.selfSigned 11 4 "me"
+    let c := Witness.selfSigned 12 4 "me"
+    ∀ done : List Cert,
+      ((done.getLast? = none ∨ done.getLast? = some c) → buildChainPrev fuel done a [a, b, c] = none) ∧
+      (done.getLast? = some a → buildChainPrev fuel done b [a, b, c] = none) ∧
+      (done.getLast? = some b → buildChainPrev fuel done c [a, b, c] = none) := by
+  intro a b c
+  induction fuel with
+  | zero => intro done; exact ⟨fun _ => rfl, fun _ => rfl, fun _ => rfl⟩
+  | succ n ih =>
+    intro done
+    refine ⟨?_, ?_, ?_⟩
+    · intro h
+      have hn : nextIssuerPrev done a [a, b, c] = some b := by
+        rcases h with h | h <;> simp [nextIssuerPrev, isIssuerOf, Witness.selfSigned, h, a, b, c]
+      simp only [buildChainPrev, hn]
+      exact (ih (done ++ [a])).2.1 (by simp)
+    · intro h
+      have hn : nextIssuerPrev done b [a, b, c] = some c := by
+        simp [nextIssuerPrev, isIssuerOf, Witness.selfSigned, h, a, b, c]
+      simp only [buildChainPrev, hn]
+      exact (ih (done ++ [b])).2.2 (by simp)
+    · intro h
+      have hn : nextIssuerPrev done c [a, b, c] = some a := by
+        simp [nextIssuerPrev, isIssuerOf, Witness.selfSigned, h, a, b, c]
+      simp only [buildChainPrev, hn]
+      exact (ih (done ++ [c])).1 (Or.inr (by simp))
+
+/-- the same weaker guard ends on two generations (which is why a pool with cycles of two cannot tell the guards
+apart), the full guard ends on three -/
+example : buildChainPrev 3 [] (Witness.selfSigned 10 4 "me")
+    [Witness.selfSigned 10 4 "me", Witness.selfSigned 11 4 "me"] =
+      some [Witness.selfSigned 10 4 "me", Witness.selfSigned 11 4 "me"] := by decide
+example : buildChain Guards.head 4 [] (Witness.selfSigned 10 4 "me")
+    [Witness.selfSigned 10 4 "me", Witness.selfSigned 11 4 "me", Witness.selfSigned 12 4 "me"] =
+      some [Witness.selfSigned 10 4 "me", Witness.selfSigned 11 4 "me", Witness.selfSigned 12 4 "me"] := by decide
+
 /-- **Key material never crashes a loader — exactly under the four checks.** For every component, key id and list
 of PEM blocks the load returns (new material or an error) if and only if the walk is bounded, the loaders ask
 whether the store has a key before taking the first one, reject keys without JOSE algorithm, and the HTTP message
@@ -238,6 +280,23 @@ example : loadRuleSet Guards.original Witness.env Witness.confusedScopes = .pani
 example : loadRuleSet Guards.original Witness.env Witness.wellFormed = .ok ["r1"] ∧
     loadRuleSet Guards.head Witness.env Witness.wellFormed = .ok ["r1"] := by
   constructor <;> rfl
+
+/-- **All or nothing.** For every flag combination, catalogue and document: if a rule set is accepted, the rules that
+come into force for its file are all the rules of the document, in order — never a part of them, never none. -/
+theorem c19_accepted_ruleset_is_complete (g : Guards) (env : Env) (d : RuleSetDoc) (ids : List String)
+    (h : loadRuleSet g env d = .ok ids) : ids = d.rules.map (·.id) ∧ ids ≠ [] := by
+  have hids := loadRuleSet_ids g env d ids h
+  refine ⟨hids, ?_⟩
+  intro hnil
+  unfold loadRuleSet at h
+  split at h
+  · simp at h
+  · rename_i hne
+    rw [hids] at hnil
+    simp at hnil
+    simp [hnil] at hne
+
+example : loadRuleSet Guards.head Witness.env Witness.wellFormed = .ok ["r1"] := rfl
 
 /-- **A rejected rule file changes nothing.** For every flag combination: the rules in force for a file change only
 when its content is taken over (a document that loads; an empty or vanished file, which means "no rules"); content that is
